@@ -21,22 +21,29 @@ Dummy == [i \in 1..10 |-> <<0, 2>>]
 CONSTANTS Base,         \* size of everything but the exclusion list (same in placeholder and signed manifest)
           Magnitudes    \* representative values for starts / lengths
 
-VARIABLES pc, P, excl, ret
-vars == <<pc, P, excl, ret>>
-Init == pc = "start" /\ P = 0 /\ excl = <<>> /\ ret = [kind |-> "none", len |-> 0]
+VARIABLES pc, P, excl, ret, round
+vars == <<pc, P, excl, ret, round>>
+Init == pc = "start" /\ P = 0 /\ excl = <<>> /\ ret = [kind |-> "none", len |-> 0] /\ round = 1
 
-Placeholder == pc = "start" /\ P' = Base + ListLen(Dummy) /\ pc' = "placed" /\ UNCHANGED <<excl, ret>>
-SetExclusions(es) == pc = "placed" /\ excl' = es /\ pc' = "excluded" /\ UNCHANGED <<P, ret>>
-UpdateHash == pc = "excluded" /\ pc' = "hashed" /\ UNCHANGED <<P, excl, ret>>
+\* placeholder(): a fresh builder gets the ten-dummy data hash; a builder that already carries a real data hash
+\* (it was used for an earlier round) keeps it, so the new placeholder is sized by that list.  The placeholder
+\* length the contract refers to is always the one returned by the LATEST placeholder() call.
+Placeholder == /\ pc = "start"
+               /\ P' = Base + (IF round = 1 THEN ListLen(Dummy) ELSE ListLen(excl))
+               /\ pc' = "placed" /\ UNCHANGED <<excl, ret, round>>
+\* the same builder is used for another placeholder/sign round
+Again == pc = "done" /\ round < 2 /\ pc' = "start" /\ round' = round + 1 /\ ret' = [kind |-> "none", len |-> 0] /\ UNCHANGED <<P, excl>>
+SetExclusions(es) == pc = "placed" /\ excl' = es /\ pc' = "excluded" /\ UNCHANGED <<P, ret, round>>
+UpdateHash == pc = "excluded" /\ pc' = "hashed" /\ UNCHANGED <<P, excl, ret, round>>
 \* sign_embeddable: the signed manifest is zero-padded up to the placeholder size; a manifest that outgrew the
 \* placeholder is an error (as coded after the S9 repair)
 SignEmbeddable ==
   /\ pc = "hashed"
   /\ LET L == Base + ListLen(excl) IN
      ret' = IF L <= P THEN [kind |-> "ok", len |-> P] ELSE [kind |-> "err", len |-> 0]
-  /\ pc' = "done" /\ UNCHANGED <<P, excl>>
+  /\ pc' = "done" /\ UNCHANGED <<P, excl, round>>
 Lists(n) == [1..n -> Magnitudes \X Magnitudes]
-Next == Placeholder \/ UpdateHash \/ SignEmbeddable \/ \E n \in 1..12 : \E es \in Lists(n) : SetExclusions(es)
+Next == Placeholder \/ Again \/ UpdateHash \/ SignEmbeddable \/ \E n \in 1..12 : \E es \in Lists(n) : SetExclusions(es)
         \/ (pc = "done" /\ UNCHANGED vars)
 Spec == Init /\ [][Next]_vars
 
